@@ -179,12 +179,32 @@ def build_node(n):
         a0 = n["actions"][0]
         node = nodes.EnterFlowNode(a0["flow"][0], a0["flow"][1])
     else:
-        node = nodes.SwitchRouterNode("@contact.groups")
+        # a has_group test may sit on ANY switch router (group split, wait for response, split by a field /
+        # result / expression): the operand and the wait are part of the generated node
+        node = nodes.SwitchRouterNode(n.get("operand") or "@contact.groups", wait_timeout=n.get("wait"))
         for a in n["actions"]:
             node.add_action(build_action(a))
+    # comparison variable of add_choice: the node's operand; an enter-flow node keeps its "@child.run.status" when
+    # the case names no variable (older replay files have no "operand": "@contact.groups" as before)
+    var = n["operand"] if "operand" in n else "@contact.groups"
     for i, k in enumerate(n["cases"]):
-        node.add_choice("@contact.groups", k["type"], list(k["args"]), f"cat{i}", None)
+        node.add_choice(var, k["type"], list(k["args"]), f"cat{i}", None)
     return node
+
+
+# operands of switch routers: group split, wait_for_response, split_by_value on a field / result / expression, urn scheme
+OPERANDS = ["@contact.groups", "@contact.groups", "@input.text", "@input.text", "@fields.age", "@results.answer",
+            "@(urn_parts(contact.urn).scheme)", "@contact.name"]
+
+
+def router_label(n):
+    """coarse class of the router a case sits on (statistics)"""
+    if n["kind"] == "enter":
+        return "enter_flow:" + ("child_status" if n.get("operand", "@contact.groups") is None else "overwritten")
+    op = n.get("operand") or "@contact.groups"
+    if n.get("wait") is not None:
+        return "wait"
+    return {"@contact.groups": "group_split"}.get(op, "other_operand")
 
 
 def build_flow(f):
@@ -623,11 +643,14 @@ def gen_case(rng, malformed, big=False):
             return {"kind": kind, "actions": [action() for _ in range(rng.choice([1, 1, 2, 3]))], "cases": []}
         if kind == "enter":
             return {"kind": kind, "actions": [{"type": "enter_flow", "flow": gref("F")}],
-                    "cases": cases() if rng.random() < 0.3 else []}
+                    "cases": cases() if rng.random() < 0.3 else [],
+                    "operand": rng.choice([None, "@contact.groups", "@results.answer"])}
         acts = []
         if path == "api" and rng.random() < 0.3:      # a router node with actions cannot be loaded from a dict
             acts = [action() for _ in range(rng.choice([1, 2]))]
-        return {"kind": kind, "actions": acts, "cases": cases()}
+        op = rng.choice(OPERANDS)
+        wait = rng.choice([0, 0, 300]) if op == "@input.text" else None
+        return {"kind": kind, "actions": acts, "cases": cases(), "operand": op, "wait": wait}
 
     def flow(n):
         st = status[n]
@@ -740,6 +763,12 @@ def classify(case, res, stats, count):
     count("flows_%d" % (len(case["flows"]) + sum(1 for o in case["ops"] if o[0] == "af")))
     first = [i for i, o in enumerate(case["ops"]) if o[0] == "render"][0]
     count("ops_between_renders" if any(o[0] != "render" for o in case["ops"][first:]) else "ops_all_before_first_render")
+    # on which routers the has_group tests sit, and whether they come with a uuid
+    for f in case["flows"] + [o[1] for o in case["ops"] if o[0] == "af"]:
+        for nd in f["nodes"]:
+            for k in nd["cases"]:
+                if k["type"] == "has_group":
+                    count("has_group_on_" + router_label(nd) + ("_uuid" if k["args"][0] else "_nouuid") + "_" + case["path"])
 
 
 def nontrivial_key(case, res):
@@ -864,7 +893,7 @@ def directed_cases():
     def base():
         return {"path": "api", "malformed": False, "groups": [], "flows": [], "campaigns": [], "triggers": [], "ops": [["render"]]}
     # explicit uuid at each possible site for a group used everywhere
-    sites = ["top", "add", "remove", "case", "campaign", "trigger", "exclude", "record"]
+    sites = ["top", "add", "remove", "case", "wait-case", "field-case", "enter-case", "campaign", "trigger", "exclude", "record"]
     for explicit_at in sites:
         for path in ("api", "dict"):
             c = base()
@@ -874,7 +903,15 @@ def directed_cases():
             c["flows"] = [{"name": "f", "uuid": "FX", "nodes": [
                 {"kind": "basic", "actions": [{"type": "add_contact_groups", "groups": [["g", u("add")]]},
                                               {"type": "remove_contact_groups", "groups": [["g", u("remove")]]}], "cases": []},
-                {"kind": "switch", "actions": [], "cases": [{"type": "has_group", "args": [u("case"), "g"]}]}]}]
+                {"kind": "switch", "actions": [], "cases": [{"type": "has_group", "args": [u("case"), "g"]}]},
+                # has_group tests on routers that are not group splits: wait for response, split on a field, and the
+                # router of an enter-flow node
+                {"kind": "switch", "operand": "@input.text", "wait": 0, "actions": [],
+                 "cases": [{"type": "has_any_word", "args": ["yes"]}, {"type": "has_group", "args": [u("wait-case"), "g"]}]},
+                {"kind": "switch", "operand": "@fields.age", "wait": None, "actions": [],
+                 "cases": [{"type": "has_group", "args": [u("field-case"), "g"]}]},
+                {"kind": "enter", "operand": None, "actions": [{"type": "enter_flow", "flow": ["f", None]}],
+                 "cases": [{"type": "has_group", "args": [u("enter-case"), "g"]}]}]}]
             c["campaigns"] = [{"events": [{"type": "F", "flow": ["f", None]}], "group": ["g", u("campaign")]}]
             c["triggers"] = [{"flow": ["f", None], "groups": [["g", u("trigger")]], "exclude": [["g", u("exclude")]]}]
             c["ops"] = ([["rg", "g", "GX"]] if explicit_at == "record" else []) + [["render"], ["render"]]
@@ -892,6 +929,36 @@ def directed_cases():
         c["ops"] = ([["rf", "ghost", None]] if via == "record" else []) + [["render"]]
         c["malformed"] = via == "nothing"
         out.append(c)
+    # conflict between a has_group test on each kind of router and every other group-reference site; and a group that
+    # only such a test names (it must be listed at top level with a uuid)
+    for router in ("group", "wait", "field", "enter"):
+        def rnode(uuid):
+            k = [{"type": "has_group", "args": [uuid, "g"]}]
+            if router == "enter":
+                return {"kind": "enter", "operand": None, "actions": [{"type": "enter_flow", "flow": ["f", None]}], "cases": k}
+            op = {"group": "@contact.groups", "wait": "@input.text", "field": "@fields.age"}[router]
+            return {"kind": "switch", "operand": op, "wait": 300 if router == "wait" else None, "actions": [], "cases": k}
+        for other in ("top", "add", "campaign", "trigger", "record", "case", None):
+            for path in ("api", "dict"):
+                for own in (("U1", None) if other else ("U1", None, "")):
+                    c = base()
+                    c["path"] = path
+                    c["malformed"] = bool(other and own)
+                    u = lambda s: "U2" if s == other else None
+                    c["groups"] = [["g", u("top")]] if other == "top" else []
+                    nodes_ = [rnode(own)]
+                    if other == "add":
+                        nodes_.insert(0, {"kind": "basic", "actions": [{"type": "add_contact_groups", "groups": [["g", "U2"]]}], "cases": []})
+                    if other == "case":
+                        nodes_.append({"kind": "switch", "operand": "@contact.groups", "wait": None, "actions": [],
+                                       "cases": [{"type": "has_group", "args": ["U2", "g"]}]})
+                    c["flows"] = [{"name": "f", "uuid": "FX", "nodes": nodes_}]
+                    if other == "campaign":
+                        c["campaigns"] = [{"events": [], "group": ["g", "U2"]}]
+                    if other == "trigger":
+                        c["triggers"] = [{"flow": ["f", None], "groups": [["g", "U2"]], "exclude": []}]
+                    c["ops"] = ([["rg", "g", "U2"]] if other == "record" else []) + [["render"], ["render"]]
+                    out.append(c)
     # conflict between every pair of flow-reference sites
     fsites = ["def", "enter", "event", "trigger", "record"]
     for s1 in fsites:
@@ -921,7 +988,7 @@ def run(ctx):
     n_cases = (40000 if thorough else 1500) * ctx.scale
     n_dict = (40000 if thorough else 3000) * ctx.scale
 
-    cases = directed_cases() if ctx.scale == 1 else []
+    cases = directed_cases() if ctx.scale < 10 else []      # cheap: also on the scale-3 pass of a drifted tree
     ctx.stats["directed_cases"] = len(cases)
     for i in range(n_cases):
         cases.append(gen_case(rng, malformed=(rng.random() < 0.3), big=(thorough and i % 10 == 0)))
@@ -1012,6 +1079,10 @@ def sheet_streams(ctx):
                     ctx.count(f"{prefix}_objid_type_{it[1]}@{'block' if it[5] else 'sheet'}")
                     ctx.count(f"{prefix}_objid_route_{rc}")
                     nt = nt or rc != "sheet"
+                if it[4] and it[1] != "split_by_group":
+                    # has_group conditions on edges leaving a row that is not a group split
+                    ctx.count(f"{prefix}_has_group_edge_from_{it[1]}@{'block' if it[5] else 'sheet'}")
+                    nt = True
         ctx.count(f"{prefix}_blocks_%d" % len(wb["blocks"]))
         ctx.count(f"{prefix}_flows_%d" % len(ex["flows"]))
         if wb.get("two_readers"):
@@ -1019,7 +1090,7 @@ def sheet_streams(ctx):
         return nt
 
     # ---- (1) one ContentIndexParser per workbook: histories of parse_all / render
-    wbs = W.directed_wbs() if ctx.scale < 10 else []      # small and cheap: also on the scale-3 pass of a drifted tree
+    wbs = W.directed_wbs() + W.directed_test_wbs() if ctx.scale < 10 else []      # small and cheap: also on the scale-3 pass of a drifted tree
     ctx.stats["wb_directed"] = len(wbs)
     for i in range(n_wb):
         wbs.append(W.gen_wb(rng, malformed=(rng.random() < 0.3), big=(thorough and i % 10 == 0)))
